@@ -603,8 +603,9 @@ func C08(tier string) *engine.Report {
 		depth = 8
 	}
 	var tot engine.BFSTotals
+	deadline := engine.Cap(tier) // one wall-clock budget for the whole check
 	sp := smSpec(depth)
-	sp.Until = engine.Cap(tier)
+	sp.Until = deadline
 	tot.Add(sp.Name, sp.Run(), rep)
 	tot.Fill(rep, fmt.Sprintf("BFS to depth %d over 13 peer events and 10 local calls from the initial state of a real websocket.Stream on a scripted transport, in lock-step with an RFC 6455 control-plane model; "+
 		"each distinct key is expanded once, so every event is applied in every reachable abstract state; every transition executes the real calls and compares outbound wire, call result, callbacks, Pending() and State()", depth))
